@@ -287,23 +287,18 @@ func (w *TimingWheel) moveTask(task baseEntry) {
 		return
 	}
 
+	// 旧条目作废，按“当前时刻 + 新延迟”重新入轮。
+	// （原先就地修改 circle/diff 的做法按槽位下标比较新旧位置，
+	// 当旧槽位不在“已走到的槽位”与新槽位之间时会早触发或晚触发整圈。）
 	pos, circle := w.getPositionAndCircle(task.delay)
-	if pos > timer.pos {
-		timer.item.circle = circle
-		timer.item.diff = pos - timer.pos
-	} else if circle > 0 {
-		circle--
-		timer.item.circle = circle
-		timer.item.diff = w.numSlots + pos - timer.pos
-	} else {
-		timer.item.removed = true
-		newItem := &timingEntry{
-			baseEntry: task,
-			value:     timer.item.value,
-		}
-		w.slots[pos].PushBack(newItem)
-		w.setTimerPosition(pos, newItem)
+	timer.item.removed = true
+	newItem := &timingEntry{
+		baseEntry: task,
+		value:     timer.item.value,
+		circle:    circle,
 	}
+	w.slots[pos].PushBack(newItem)
+	w.setTimerPosition(pos, newItem)
 }
 
 func (w *TimingWheel) getPositionAndCircle(d time.Duration) (pos, circle int) {
